@@ -2,6 +2,7 @@ package lint
 
 import (
 	"fmt"
+	"go/constant"
 	"go/types"
 	"strings"
 
@@ -15,7 +16,7 @@ import (
 // without it: on the other side the length of the piece is provably <= 0 (`if len(b) > 1 { keep b[1:] }` skips
 // only when there is nothing to keep; `if len(b) > 2` drops a one-octet value).
 func (c *Ctx) noSilentSkipRule(r *Report, rule string, pkgs ...string) {
-	r.Rule(rule, "an Unmarshal method that stores a piece b[lo:hi] of its input under a guard returns success on the other side of the guard only if the piece is empty there", 3)
+	r.Rule(rule, "an Unmarshal method that stores a piece b[lo:hi] of its input under a guard returns success on the other side of the guard (a test of the input length, outside any loop the store lies in) only if the piece is empty there", 0)
 	for _, fn := range c.ModFuncs {
 		if fn.Parent() != nil || fn.Name() != "Unmarshal" || fn.Signature.Recv() == nil || len(fn.Blocks) == 0 {
 			continue
@@ -100,7 +101,28 @@ func (c *Ctx) noSilentSkipRule(r *Report, rule string, pkgs ...string) {
 				if !ok || g.Succs[0] == g.Succs[1] || !g.Dominates(bs) {
 					continue
 				}
-				_ = iff
+				// only tests of the input's length decide whether "there is something to keep"; a test of a value
+				// (a type octet selecting which pieces an arm keeps) is the slot tables' business, and the exit test
+				// of a loop the store lies in is not an alternative to this store but the end of the walk
+				if !c.blockReachesAvoiding(bs, g, nil) {
+					cond, ok := iff.Cond.(*ssa.BinOp)
+					if !ok {
+						continue
+					}
+					lenOfInput := func(v ssa.Value) bool {
+						call, ok := v.(*ssa.Call)
+						if !ok {
+							return false
+						}
+						bi, ok := call.Call.Value.(*ssa.Builtin)
+						return ok && bi.Name() == "len" && len(call.Call.Args) == 1 && fromInput(call.Call.Args[0])
+					}
+					if !lenOfInput(cond.X) && !lenOfInput(cond.Y) {
+						continue
+					}
+				} else {
+					continue
+				}
 				for i, t := range g.Succs {
 					e := g.Succs[1-i]
 					if !(t == bs || t.Dominates(bs)) || len(t.Preds) != 1 {
@@ -128,13 +150,11 @@ func (c *Ctx) noSilentSkipRule(r *Report, rule string, pkgs ...string) {
 							break
 						}
 						if sl.Low != nil {
-							k, ok := sl.Low.(*ssa.Const)
-							if !ok {
-								loOK = false
-								break
+							// a start that is not a constant is at least 0
+							if k, ok := sl.Low.(*ssa.Const); ok {
+								kv, _ := constInt64(k.Value)
+								lo += kv
 							}
-							kv, _ := constInt64(k.Value)
-							lo += kv
 						}
 						v = sl.X
 					}
@@ -174,4 +194,134 @@ func (c *Ctx) blockReachesAvoiding(from, to, avoid *ssa.BasicBlock) bool {
 		st = append(st, x.Succs...)
 	}
 	return false
+}
+
+// lostReceiverStoreRule: a method with a value receiver that assigns to a field of its receiver assigns to a
+// copy; the caller's object is unchanged and the method reports success (a setter that allocates its attribute
+// map lazily, moved from *T to T, loses the first attribute set on a zero-value message).
+func (c *Ctx) lostReceiverStoreRule(r *Report, rule string, pkgs ...string) {
+	r.Rule(rule, "no method with a value receiver stores to a field of that receiver (the store would land on a copy and be lost): setters and decoders take their object by pointer", 0)
+	n := 0
+	for _, fn := range c.ModFuncs {
+		if fn.Parent() != nil || fn.Signature.Recv() == nil || len(fn.Blocks) == 0 || len(fn.Params) == 0 {
+			continue
+		}
+		in := false
+		for _, p := range pkgs {
+			if c.relPkg(fn) == p {
+				in = true
+			}
+		}
+		if !in {
+			continue
+		}
+		if _, isStruct := fn.Signature.Recv().Type().Underlying().(*types.Struct); !isStruct {
+			continue
+		}
+		n++
+		recv := fn.Params[0]
+		bad := ""
+		for _, b := range fn.Blocks {
+			for _, ins := range b.Instrs {
+				st, ok := ins.(*ssa.Store)
+				if !ok {
+					continue
+				}
+				fa, ok := st.Addr.(*ssa.FieldAddr)
+				if !ok {
+					continue
+				}
+				al, ok := fa.X.(*ssa.Alloc)
+				if !ok {
+					continue
+				}
+				for _, u := range *al.Referrers() {
+					if s0, ok := u.(*ssa.Store); ok && s0.Addr == ssa.Value(al) && s0.Val == ssa.Value(recv) {
+						bad = "field " + FieldKey(fa.X.Type(), fa.Field) + " of the receiver copy is assigned at " + c.InstrPos(st)
+					}
+				}
+			}
+		}
+		r.Check(bad == "", rule, c.FuncName(fn), c.Pos(fn.Pos()), "value receiver, no field of it assigned", bad+": the caller's object does not change")
+	}
+	if n == 0 {
+		r.ok(rule, "no method with a struct value receiver", "-", "nothing to check", true)
+	}
+}
+
+// formatRecursionRule: a String / Error / Format / GoString method that hands its own receiver, at its own type,
+// to a fmt function is re-entered by fmt for that argument without bound (a stack overflow, which no recover
+// catches). The call goes through the fmt package, so the module's call graph does not show the cycle.
+func (c *Ctx) formatRecursionRule(r *Report, rule string) {
+	r.Rule(rule, "no String / Error / Format / GoString method of a module type passes its receiver, at the receiver's own type, to a fmt function (fmt would call the method again for that argument: unbounded recursion through the library)", 0)
+	n := 0
+	for _, fn := range c.ModFuncs {
+		if fn.Parent() != nil || fn.Signature.Recv() == nil || len(fn.Blocks) == 0 || len(fn.Params) == 0 {
+			continue
+		}
+		switch fn.Name() {
+		case "String", "Error", "Format", "GoString":
+		default:
+			continue
+		}
+		n++
+		recv := fn.Params[0]
+		callsFmt := false
+		bad := ""
+		for _, b := range fn.Blocks {
+			for _, ins := range b.Instrs {
+				if call, ok := ins.(*ssa.Call); ok {
+					if cal := call.Call.StaticCallee(); cal != nil && cal.Pkg != nil && cal.Pkg.Pkg.Path() == "fmt" {
+						// fmt calls String / Error only for the verbs %v %s %x %X %q (a Formatter for every verb): a
+						// constant format made of other verbs (%d) does not re-enter
+						reenters := true
+						if fn.Name() != "Format" {
+							for _, a := range call.Call.Args {
+								k, ok := a.(*ssa.Const)
+								if !ok || k.Value == nil || k.Value.Kind() != constant.String {
+									continue
+								}
+								f := constant.StringVal(k.Value)
+								reenters = false
+								for i := 0; i+1 < len(f); i++ {
+									if f[i] != '%' {
+										continue
+									}
+									j := i + 1
+									for j < len(f) && strings.ContainsRune("+-# 0123456789.*[]", rune(f[j])) {
+										j++
+									}
+									if j < len(f) && strings.ContainsRune("vsxXq", rune(f[j])) {
+										reenters = true
+									}
+									i = j
+								}
+							}
+							if strings.HasPrefix(cal.Name(), "Sprint") && !strings.HasSuffix(cal.Name(), "f") || strings.HasPrefix(cal.Name(), "Fprint") && !strings.HasSuffix(cal.Name(), "f") || cal.Name() == "Print" || cal.Name() == "Println" {
+								reenters = true
+							}
+						}
+						if reenters {
+							callsFmt = true
+						}
+					}
+				}
+				mi, ok := ins.(*ssa.MakeInterface)
+				if !ok {
+					continue
+				}
+				x := mi.X
+				if u, ok := x.(*ssa.UnOp); ok && u.X == ssa.Value(recv) {
+					x = recv
+				}
+				if x == ssa.Value(recv) {
+					bad = "the receiver is boxed at its own type at " + c.InstrPos(mi)
+				}
+			}
+		}
+		r.Check(bad == "" || !callsFmt, rule, c.FuncName(fn), c.Pos(fn.Pos()), "the receiver is converted to a basic type (or not passed on) before formatting", bad+" and a fmt function is called: fmt calls this method again for that argument")
+	}
+	if n == 0 {
+		r.ok(rule, "no formatting method in the module", "-", "nothing to check", true)
+	}
 }
